@@ -77,6 +77,7 @@ func (o storeOp) String() string {
 }
 
 type genCtx struct {
+	forceTotal int // test knob (cfg bulktotal)
 	quick   bool // quick tier: bulk loads stay at the first chunk boundary
 	live    int // live signatures in the model (kept by apply)
 	bulked  bool
@@ -158,7 +159,10 @@ func genOp(t *vs.Tape, g *genCtx) storeOp {
 		// the TOTAL number of live signatures lands on / around the 1000-entry chunk boundaries
 		total := []int{1000, 2000, 999, 1001, 1999, 2001, 2500}[t.Weighted("bulk.total", 3, 3, 1, 1, 1, 1, 1)]
 		if g.quick && total > 1001 {
-			total = []int{1000, 1001, 999}[total%3]
+			total = []int{1001, 1000, 1001}[total%3]
+		}
+		if g.forceTotal > 0 {
+			total = g.forceTotal
 		}
 		n := total - g.live
 		if n < 1 {
